@@ -579,6 +579,18 @@ pub mod rewrite {
       imported_module_loc: dummy_location,
     });
     compute_module_diff_edits(&state.heap, module_reference, ast, &changed_ast)
+      .into_iter()
+      .map(|(loc, text)| {
+        // The new import is inserted right behind the last existing import. Put it on its own
+        // line: otherwise it is glued to an import that has no trailing `;`
+        // (`import {A} from Bimport { C } from D;`) or swallowed by a trailing `//` comment.
+        if !ast.imports.is_empty() && loc.start == loc.end {
+          (loc, format!("\n{text}"))
+        } else {
+          (loc, text)
+        }
+      })
+      .collect()
   }
 }
 
